@@ -3,9 +3,14 @@
 #ifndef VX_EQREL_H
 #define VX_EQREL_H
 #include "ramtypes.hpp"
+#include <cassert>
 extern "C" {
 bool vx_nodeExists(int v);
 bool vx_contains(int a, int b);
+unsigned long vx_findNode(int v);
+void vx_regen(void);            // genAllDisjointSetLists(): the per-class list cache is rebuilt if stale
+bool vx_cache_read(void);       // a read of the cache: asserts that it is fresh; returns whether the class was found
+void vx_cache_iter(void);       // an iterator over the class lists is created: asserts that the cache is fresh
 }
 struct vx_ostream {
     vx_ostream& operator<<(const char*) { return *this; }
@@ -13,7 +18,26 @@ struct vx_ostream {
 namespace std { static vx_ostream cerr; }
 namespace souffle {
 enum { VX_ALL = 0, VX_END = 1, VX_ANT = 2, VX_ANTPOST = 3 };
-struct vx_iter { int kind; RamDomain a; RamDomain b; };
+typedef int StatesBucket;
+struct vx_iter {
+    int kind; RamDomain a; RamDomain b;
+    vx_iter() {}
+    vx_iter(const void*) : kind(VX_ALL), a(0), b(0) { vx_cache_iter(); }                                   // iterator(this): all pairs
+    vx_iter(const void*, bool) : kind(VX_END), a(0), b(0) {}                                                // iterator(this, true): end
+    vx_iter(const void*, RamDomain x, StatesBucket) : kind(VX_ANT), a(x), b(0) { vx_cache_iter(); }         // pairs (x, _)
+    vx_iter(const void*, RamDomain x, RamDomain y, StatesBucket) : kind(VX_ANTPOST), a(x), b(y) { vx_cache_iter(); }   // the pair (x, y)
+};
+struct vx_pentry { unsigned long first; StatesBucket second; };
+struct vx_piter {
+    bool valid;
+    vx_pentry operator*() const { vx_pentry e; e.first = 0; e.second = 0; return e; }
+    bool operator!=(const vx_piter& o) const { return valid != o.valid; }
+    bool operator==(const vx_piter& o) const { return valid == o.valid; }
+};
+struct vx_partition {
+    vx_piter vx_find(unsigned long) const { vx_piter i; i.valid = vx_cache_read(); return i; }
+    vx_piter end() const { vx_piter i; i.valid = false; return i; }
+};
 template <typename I> struct range { I b; I e; I begin() const { return b; } I end() const { return e; } };
 template <typename I> range<I> make_range(const I& b, const I& e) { range<I> r; r.b = b; r.e = e; return r; }
 struct vx_tuple2 {
@@ -24,6 +48,8 @@ struct vx_tuple2 {
 struct vx_sds {
     bool nodeExists(RamDomain v) const { return vx_nodeExists(v); }
     bool contains(RamDomain a, RamDomain b) const { return vx_contains(a, b); }
+    bool sameSet(RamDomain a, RamDomain b) const { return vx_contains(a, b); }
+    unsigned long findNode(RamDomain v) const { return vx_findNode(v); }
 };
 struct vx_eqrel_base {
     typedef vx_iter iterator;
@@ -31,11 +57,12 @@ struct vx_eqrel_base {
     typedef vx_tuple2 TupleType;
     typedef RamDomain value_type;
     vx_sds sds;
-    iterator begin() const { vx_iter i; i.kind = VX_ALL; i.a = 0; i.b = 0; return i; }
-    iterator end() const { vx_iter i; i.kind = VX_END; i.a = 0; i.b = 0; return i; }
-    iterator anteriorIt(value_type x) const { vx_iter i; i.kind = VX_ANT; i.a = x; i.b = 0; return i; }
-    iterator antpostit(value_type x, value_type y) const { vx_iter i; i.kind = VX_ANTPOST; i.a = x; i.b = y; return i; }
+    vx_partition equivalencePartition;
+    void genAllDisjointSetLists() const { vx_regen(); }
+    iterator end() const { return iterator(this, true); }
 };
+struct EqrelScaffold;
+typedef EqrelScaffold EquivalenceRelation;
 // scaffold for t_eqrel's nested types: iterator_0 forwards, iterator_1 yields the tuples with their columns swapped
 struct vx_t_eqrel_base {
     typedef vx_tuple2 t_tuple;
